@@ -31,6 +31,9 @@ pub struct Exec {
     pub shadow: String,
     pub dead: bool,
     pub steps: usize,
+    /// every concrete event applied since the context was created (for witnesses that need the whole life of a context)
+    pub log: Vec<Ev>,
+    pub keep_log: bool,
 }
 
 // ---- per-call CPU watchdog (see pool::worker watchdog thread)
@@ -96,7 +99,7 @@ fn timed<T>(f: impl FnOnce() -> Result<T, Panic>) -> (Result<T, Panic>, u64) {
 impl Exec {
     pub fn new(spec: CfgSpec, root: &Path) -> Result<Exec, Panic> {
         let sess = Sess::new(spec, root)?;
-        Ok(Exec { sess, root: root.to_path_buf(), screen: None, highlight: 0, shadow: String::new(), dead: false, steps: 0 })
+        Ok(Exec { sess, root: root.to_path_buf(), screen: None, highlight: 0, shadow: String::new(), dead: false, steps: 0, log: vec![], keep_log: false })
     }
 
     /// Is `ev` inside the API contract in the current front-end state?
@@ -127,6 +130,9 @@ impl Exec {
     /// Execute one event (must be in contract). Every riti call is guarded and timed.
     pub fn apply(&mut self, ev: &Ev) -> Step {
         self.steps += 1;
+        if self.keep_log {
+            self.log.push(ev.clone());
+        }
         let mut sugg = None;
         let (result, cpu_ns): (Result<Option<Rs>, Panic>, u64) = match ev {
             Ev::Key(k, m, s) => {
